@@ -1009,6 +1009,10 @@ impl SettlementService {
             let mut appended_plurals = Vec::new();
 
             for decision in &plan.decisions {
+                #[cfg(feature = "echo_verif")]
+                if crate::verif::failpoint::hit("settle.before_decision") {
+                    return Err(verif_failpoint_error());
+                }
                 let commit_global_tick = runtime.advance_global_tick()?;
                 let appended_ref = match decision {
                     SettlementDecision::ImportCandidate(candidate) => append_import_candidate(
@@ -1033,6 +1037,10 @@ impl SettlementService {
                         commit_global_tick,
                     )?,
                 };
+                #[cfg(feature = "echo_verif")]
+                if crate::verif::failpoint::hit("settle.after_append") {
+                    return Err(verif_failpoint_error());
+                }
                 match decision {
                     SettlementDecision::ImportCandidate(_) => appended_imports.push(appended_ref),
                     SettlementDecision::ConflictArtifact(_) => {
@@ -1044,6 +1052,10 @@ impl SettlementService {
                 }
             }
 
+            #[cfg(feature = "echo_verif")]
+            if crate::verif::failpoint::hit("settle.before_shell") {
+                return Err(verif_failpoint_error());
+            }
             // The shell is the final fallible step: a failed settle restores
             // entries before any shell describing them could be retained.
             let shell = build_braid_shell(
@@ -1054,7 +1066,15 @@ impl SettlementService {
                 policy,
                 &appended_imports,
             )?;
+            #[cfg(feature = "echo_verif")]
+            if crate::verif::failpoint::hit("settle.before_shell_append") {
+                return Err(verif_failpoint_error());
+            }
             let braid_shell = provenance.append_braid_shell(shell)?;
+            #[cfg(feature = "echo_verif")]
+            if crate::verif::failpoint::hit("settle.after_shell_append") {
+                return Err(verif_failpoint_error());
+            }
 
             Ok(SettlementResult {
                 plan,
@@ -1071,6 +1091,15 @@ impl SettlementService {
         }
         outcome
     }
+}
+
+/// Verification-only (`echo_verif`): the typed error an armed settlement
+/// failpoint returns. Recognisable by the `WorldlineTick::MAX` coordinate.
+#[cfg(feature = "echo_verif")]
+fn verif_failpoint_error() -> SettlementError {
+    SettlementError::History(HistoryError::HistoryUnavailable {
+        tick: WorldlineTick::MAX,
+    })
 }
 
 fn strand(
@@ -1357,6 +1386,10 @@ fn append_recorded_entry(
         });
     }
 
+    #[cfg(feature = "echo_verif")]
+    if crate::verif::failpoint::hit("settle.entry.after_apply") {
+        return Err(verif_failpoint_error());
+    }
     let actual_state_root = frontier.state().state_root();
     if actual_state_root != draft.expected_state_root {
         return Err(SettlementError::ImportedStateRootMismatch {
@@ -1393,6 +1426,10 @@ fn append_recorded_entry(
         draft.atom_writes,
     );
     provenance.append_recorded_event(entry.clone())?;
+    #[cfg(feature = "echo_verif")]
+    if crate::verif::failpoint::hit("settle.entry.after_provenance_append") {
+        return Err(verif_failpoint_error());
+    }
     let patch_ref =
         entry
             .patch
@@ -1407,6 +1444,10 @@ fn append_recorded_entry(
         replay_patch,
         finalized_channels(&entry.outputs),
     );
+    #[cfg(feature = "echo_verif")]
+    if crate::verif::failpoint::hit("settle.entry.before_advance") {
+        return Err(verif_failpoint_error());
+    }
     frontier
         .advance_tick()
         .ok_or(RuntimeError::FrontierTickOverflow(target_worldline))?;
